@@ -5,9 +5,8 @@
 -/
 import FqeVerif.Model.Wick
 import FqeVerif.Lemmas.TermAlgebra
-import FqeVerif.Props.C01
 namespace Model
-open Fock C01
+open Fock
 
 /-- operators of an entry with the labels replaced by modes -/
 def itemTerm (ρ : Nat → Nat) (it : WItem) : Term := it.ops.map (fun o => (ρ o.1, o.2))
